@@ -114,6 +114,37 @@ partial def postingsOKs (ctx : Ctx) : MTs → Bool
   | .cons h t => postingsOK ctx h && postingsOKs ctx t
 end
 
+/-- the structural hypotheses of `C01_search_exact_all` (`MT.OkF` at state 0, as far as they are decidable from the
+    dumped tree): substring leaves with selected trigram positions `i ≤ j`, `j + 3 ≤ |pattern|` and the pads
+    `iterateNgrams` computes from them; `andLine` nodes over substring leaves only -/
+def subShapeOK (s : Sub) : Bool :=
+  match s.it with
+  | Option.none => decide (0 < s.pat.length)
+  | some it =>
+    let d := match it.iter with | .basic _ => 0 | .dist x => x.d
+    decide (it.leftPad + d + 3 ≤ s.pat.length) && decide (it.rightPad = s.pat.length - it.leftPad) &&
+    decide (it.fileIdx = 0) && (match it.iter with | .basic _ => true | .dist x => !x.started && decide (0 < x.d))
+
+mutual
+partial def fragmentOK : MT → Bool
+  | .sub s => subShapeOK s
+  | .and _ ch => fragmentOKs ch
+  | .andLine _ _ ch => fragmentOKs ch && allSubs ch
+  | .or _ ch => fragmentOKs ch
+  | .not _ c => fragmentOK c
+  | .fileName _ c => fragmentOK c
+  | .boost _ c => fragmentOK c
+  | .noVisit c => fragmentOK c
+  | _ => true
+partial def fragmentOKs : MTs → Bool
+  | .nil => true
+  | .cons h t => fragmentOK h && fragmentOKs t
+partial def allSubs : MTs → Bool
+  | .nil => true
+  | .cons (.sub _) t => allSubs t
+  | .cons _ _ => false
+end
+
 def showRaw (n : Nat) : String := if n = maxU32 then "M" else toString n
 
 def showSt : St → String
@@ -152,6 +183,7 @@ def handleSearch (live names contents tree impl : String) : String :=
       | some r =>
         if !(checkP ctx mt r) then specFail model "search-result-differs-from-scan"
         else if !(postingsOK ctx mt) then specFail model "posting-lists-differ-from-the-occurrences-of-the-trigram"
+        else if !(fragmentOK mt) then specFail model "tree-outside-the-proved-fragment"
         else answer model
     | _ => badCase "tree"
   | _, _, _ => badCase "fields"
